@@ -3,6 +3,9 @@ package h
 import (
 	"encoding/hex"
 	"fmt"
+	tx "github.com/MinterTeam/minter-go-node/coreV2/transaction"
+	"github.com/MinterTeam/minter-go-node/coreV2/types"
+	"math/big"
 	"math/rand"
 	"os"
 
@@ -98,9 +101,9 @@ func init() {
 	MonitorsFor["C07"] = mons
 	Register(&CheckDef{
 		ID: "C07", Level: "exploration",
-		Rule: "two kinds of cases: hostile histories (35% invalid txs, evidence against validators/candidates/unknown addresses, absences, empty vote sets, time jumps, reward window with and without USDT pool) and byte-level inputs (valid txs mutated by 9 mutators and random strings) given to CheckTx and DeliverTx; every ABCI call runs under recover() in a supervised child; one evaluation = one ABCI call; distinct = (call, tx type, response code) and block kinds",
+		Rule:        "two kinds of cases: hostile histories (35% invalid txs, evidence against validators/candidates/unknown addresses, absences, empty vote sets, time jumps, reward window with and without USDT pool) and byte-level inputs (valid txs mutated by 9 mutators and random strings) given to CheckTx and DeliverTx; every ABCI call runs under recover() in a supervised child; one evaluation = one ABCI call; distinct = (call, tx type, response code) and block kinds",
 		Assumptions: []string{"a recovered panic or a dead worker process is a violation; os.Exit on an accepted halt is excluded (governance txs are generated without reaching 2/3 here)"},
-		Quick: 45, Thorough: 450, MinEval: 5000, MinDistinct: 40,
+		Quick:       45, Thorough: 450, MinEval: 5000, MinDistinct: 40,
 		Run: func(ctx *WorkCtx, idx int) {
 			r := Rng(ctx.Seed, "C07", idx)
 			sc := StdScenario(idx/3, r, 150)
@@ -122,6 +125,10 @@ func init() {
 						req := d.NextReq()
 						req.Votes = nil
 						s.RunBlock(req, nil, nil)
+						continue
+					}
+					if (i == 20 || i == 70) && len(s.W.Multisigs) > 0 && !s.Dead {
+						c07MalformedEdit(s, d, r)
 						continue
 					}
 					d.Block()
@@ -159,4 +166,75 @@ func init() {
 			s.Finish()
 		},
 	})
+}
+
+// c07MalformedEdit: a wallet edits itself with MORE addresses than weights (other malformed shapes come from the generator),
+// then sends a transaction signed by all the addresses it named, including the one without a weight (lead: added after
+// seed C07-m1 stopped being reached by the random generator at both seeds).
+func c07MalformedEdit(s *Sim, d *Driver, r *rand.Rand) {
+	var m *MultisigAcc
+	for _, x := range s.W.Multisigs { // a wallet that can pay the fee
+		if b := s.N.App.CurrentState().Accounts().GetBalance(x.Addr, 0); b.Cmp(Bip(5)) > 0 && (m == nil || r.Intn(2) == 0) {
+			m = x
+		}
+	}
+	if m == nil {
+		return
+	}
+	owners := append([]*Key{}, m.Owners...)
+	for _, u := range s.W.Users {
+		dup := false
+		for _, o := range owners {
+			if o == u {
+				dup = true
+			}
+		}
+		if !dup {
+			owners = append(owners, u)
+			break
+		}
+	}
+	var as []types.Address
+	for _, o := range owners {
+		as = append(as, o.Addr)
+	}
+	ws := make([]uint32, len(owners)-1)
+	for i := range ws {
+		ws[i] = uint32(1 + r.Intn(5))
+	}
+	if len(ws) == 0 {
+		return
+	}
+	snd := Senderish{M: m}
+	drafts := []*draft{
+		{t: tx.TypeEditMultisig, kind: "invalid", note: "edit-msig", sender: &snd, price1: true, data: tx.EditMultisigData{Threshold: 1, Weights: ws, Addresses: as}},
+		{t: tx.TypeSend, kind: "valid", note: "send-after-malformed-edit", sender: &snd, price1: true, data: tx.SendData{Coin: 0, To: s.W.Users[0].Addr, Value: big.NewInt(1)}},
+	}
+	req := d.NextReq()
+	s.RunBlock(req, nil, func(i int) ([]byte, TxMeta, bool) {
+		if i > 0 {
+			res := s.CurRes.Deliver[i-1]
+			d.G.Learn(&s.Metas[i-1], res.Code, Tags(&res))
+		}
+		if i >= len(drafts) {
+			return nil, TxMeta{}, false
+		}
+		if i == 0 {
+			d.G.pendingEdit = &MultisigAcc{Addr: m.Addr, Owners: owners, Weights: ws, Threshold: 1}
+		}
+		if i == 1 {
+			// as many signatures as there are weights, the address without a weight among them
+			nonce := s.N.App.CurrentState().Accounts().GetNonce(m.Addr) + 1
+			sp := &TxSpec{Nonce: nonce, ChainID: types.CurrentChainID, GasPrice: 1, Type: tx.TypeSend, Data: drafts[1].data, Multisig: m, Signers: owners[1:]}
+			return sp.Encode(), TxMeta{Type: byte(tx.TypeSend), Sender: hex.EncodeToString(m.Addr[:]), Nonce: nonce, GasPrice: 1, Kind: "valid", Note: "send-signed-by-weightless-owner", Msig: true, Chain: byte(types.CurrentChainID)}, true
+		}
+		bz, mt := d.G.Envelope(drafts[i])
+		return bz, mt, true
+	})
+	if os.Getenv("C07_DEBUG") != "" && s.CurRes != nil {
+		for i, dl := range s.CurRes.Deliver {
+			fmt.Fprintf(os.Stderr, "C07DEBUG malformed-edit tx %d code %d log %s\n", i, dl.Code, dl.Log)
+		}
+		fmt.Fprintf(os.Stderr, "C07DEBUG dead=%v panic=%v\n", s.Dead, s.CurRes.Panic != nil)
+	}
 }
